@@ -9,6 +9,9 @@ REPO = "/repo"
 TMP = os.path.join(VERIF, "tmp")
 JUDGE = os.path.join(LEAN, ".lake", "build", "bin", "hecs_judge")
 ALLOWED_AXIOMS = {"propext", "Classical.choice", "Quot.sound"}
+MIRI_ENV = {"RUSTFLAGS": "--cfg hecs_verif", "CARGO_NET_OFFLINE": "true",
+            "MIRIFLAGS": "-Zmiri-disable-isolation -Zmiri-ignore-leaks -Zmiri-permissive-provenance",
+            "CARGO_TARGET_DIR": os.path.join(HARNESS, "target", "miri")}
 NCPU = os.cpu_count() or 4
 
 sys.path.insert(0, os.path.join(VERIF, "tools"))
@@ -351,8 +354,24 @@ def run_job(exe, job, workdir):
             pass
     cmd = [exe, job["engine"], "gen", "--out", workdir] + [str(x) for x in job["args"]]
     t0 = time.time()
-    p = subprocess.run(cmd, stdout=subprocess.PIPE, stderr=subprocess.PIPE, text=True)
-    res = {"job": job, "rc": p.returncode, "stderr": p.stderr[-3000:], "workdir": workdir}
+    if job.get("miri"):
+        # the same harness, interpreted by Miri: undefined behaviour in hecs' unsafe code that happens to
+        # produce plausible values is visible only here (supports the search for a failing input; C04)
+        env = dict(os.environ)
+        env.update(MIRI_ENV)
+        cmd = ["cargo", "+nightly", "miri", "run", "--offline", "--"] + cmd[1:]
+        try:
+            p = subprocess.run(cmd, cwd=HARNESS, env=env, stdout=subprocess.PIPE, stderr=subprocess.PIPE, text=True,
+                               timeout=job.get("timeout", 3600))
+        except subprocess.TimeoutExpired:
+            return {"job": job, "rc": 0, "stderr": "", "workdir": workdir, "histories": [], "lines": 0, "miri": "timeout"}
+        ub = re.search(r"error: Undefined Behavior: [^\n]*", p.stderr)
+        res = {"job": job, "rc": 0, "stderr": p.stderr[-3000:], "workdir": workdir,
+               "miri": "ub" if ub else ("ok" if p.returncode == 0 else "unavailable"),
+               "miri_message": (ub.group(0) + " @ " + " | ".join(re.findall(r"--> (/repo/[^\n]*)", p.stderr)[:2])) if ub else p.stderr[-400:]}
+    else:
+        p = subprocess.run(cmd, stdout=subprocess.PIPE, stderr=subprocess.PIPE, text=True)
+        res = {"job": job, "rc": p.returncode, "stderr": p.stderr[-3000:], "workdir": workdir}
     tr = os.path.join(workdir, "trace.txt")
     if not os.path.exists(tr):
         res["histories"] = []
@@ -487,6 +506,16 @@ def check(pid, tier, seed, replay_file=None):
             jr["name"] = j["name"] + "-release"
             jobs.append((exe_rel, jr))
     results = []
+    if any(j.get("miri") for _, j in jobs):
+        env = dict(os.environ)
+        env.update(MIRI_ENV)
+        with Lock(os.path.join(TMP, "cargo-miri.lock")):
+            pm = subprocess.run(["cargo", "+nightly", "miri", "run", "--offline", "--", "bits", "gen", "--seed", "1", "--count", "1",
+                                 "--out", os.path.join(work, "miri-warmup")], cwd=HARNESS, env=env,
+                                stdout=subprocess.PIPE, stderr=subprocess.PIPE, text=True)
+        if pm.returncode != 0:
+            log(f"[{pid}] Miri is not usable here ({pm.stderr[-200:].strip()}); its jobs are skipped")
+            jobs = [(e, j) for e, j in jobs if not j.get("miri")]
     with ThreadPoolExecutor(max_workers=min(NCPU, max(1, len(jobs)))) as ex:
         futs = [ex.submit(run_job, e, j, os.path.join(work, j["name"])) for e, j in jobs]
         for f in futs:
@@ -524,6 +553,23 @@ def check(pid, tier, seed, replay_file=None):
         if r["rc"] == 3:
             inconclusive.append(f"harness bug in job {job['name']}: {r['stderr'][-500:]}")
             continue
+        if r.get("miri") == "ub":
+            opsf = os.path.join(r["workdir"], "ops.txt")
+            hdrs = [l for l in open(opsf).read().splitlines() if l.startswith("history ")] if os.path.exists(opsf) else []
+            rp = os.path.join(VERIF, "replays", f"{pid}-{eng}-miri-{hdrs[-1].split()[-1] if hdrs else 'none'}.ops")
+            with open(rp, "w") as f:
+                f.write(f"# property {pid}; Miri reported undefined behaviour while executing this history\n")
+                f.write(f"# {r['miri_message'][:600]}\n")
+                f.write("# replay: cd harness && RUSTFLAGS='--cfg hecs_verif' MIRIFLAGS='%s' cargo +nightly miri run --offline -- %s replay <this file>\n"
+                        % (MIRI_ENV["MIRIFLAGS"], eng))
+                if hdrs:
+                    f.write(hdrs[-1] + "\n" + "\n".join(history_ops(opsf, hdrs[-1])) + "\n")
+            desc = f"{eng} MIRI {r['miri_message'][:300]}"
+            k = match_known(pid, desc)
+            if k:
+                known_hits.append((k, desc))
+            else:
+                violations.append((rp, "", desc))
         bad = []
         for h in r["histories"]:
             if h["status"] == "ok":
@@ -668,7 +714,8 @@ def finish(pid, tier, seed, t0, P, results, violations, known_hits, plan, note=N
         "jobs": [{"name": r["job"]["name"], "engine": r["job"]["engine"], "args": r["job"]["args"],
                   "histories": len(r.get("histories", [])), "lines": r.get("lines", 0),
                   "failed": len([h for h in r.get("histories", []) if h["status"] != "ok"]),
-                  "advisory_internal_differences": r.get("advisory", 0)} for r in results],
+                  "advisory_internal_differences": r.get("advisory", 0),
+                  **({"miri": r["miri"]} if r.get("miri") else {})} for r in results],
         "input_distribution": stats,
         "known_findings_hit": [k["signature"] for k, _ in known_hits],
         "exhaustive": bool(plan.get("exhaustive", False)),
